@@ -31,11 +31,22 @@ global size_of usize == 8;
 '''
 
 
-def value_types(u, const_alias=None, with_value=True):
+def value_types(u, const_alias=None, with_value=True, emap=False):
     """ConstValue (and Value) from value/src/lib.rs. const_alias='Value' renames ConstValue (inside async-graphql
     `Value` IS ConstValue); then the parser's variable-carrying Value is not extracted."""
     u.prelude('value_shims')
     u.trusted(MAP_SHIMS, 'HashMap/IndexMap keyed by Name (shim)')
+    if emap:
+        # transparent entry-list shim of IndexMap (structural recursion through object values becomes provable)
+        u.prelude('indexmap_e')
+        u.extract_type(V, ['enum ConstValue'], rewrites=[Sub('IndexMap<Name, ConstValue>', 'IndexMapE<ConstValue>', rule='R-ty')])
+        if with_value:
+            u.extract_type(V, ['enum Value'], rewrites=[Sub('IndexMap<Name, Value>', 'IndexMapE<Value>', rule='R-ty')])
+        else:
+            u.trusted('pub type Value = ConstValue;   // inside async-graphql, `Value` is `async_graphql_value::ConstValue`', 'Value alias')
+        u.assume('target is 64-bit (global size_of usize == 8)')
+        u.assume('indexmap::IndexMap<Name,_> represented by its insertion-ordered entry list with distinct keys (type invariant) (assumed contract on a dependency)')
+        return
     if const_alias:
         u.extract_type(V, ['enum ConstValue'],
                        rewrites=[Sub('IndexMap<Name, ConstValue>', 'IndexMapN<ConstValue>', rule='R-ty'),
